@@ -6,6 +6,7 @@
 import CharsetProof.Model.Detect
 import CharsetProof.Model.Decode
 import CharsetProof.Model.Names
+import CharsetProof.Model.SortLarge
 import CharsetProof.Generated.TablesNow
 namespace Charset
 
@@ -40,7 +41,7 @@ def codecNow (e : Name) : Option Codec :=
     else if id = nUTF16BE then some (.utf16 false)
     else match lookupName Gen.sbTables id with
       | some tbl => some (.table tbl)
-      | none => some (.opaque id)
+      | none => some (.external id)
 
 /-- finite oracle: answers recorded from the real functions -/
 structure Oracle where
@@ -88,9 +89,10 @@ def worldNow (o : Oracle) : World Name Name where
     | some l => .ok l
     | none => needO (.target e)
 
-/-- the container's sort: insertion sort up to 20 elements; `large` plugged in by `SortLarge` -/
-def sortNow (large : (Match Name Name → Match Name Name → Bool) → List (Match Name Name) → List (Match Name Name)) :
-    Sorter Name Name :=
-  sortUnstableWith large Match.lt
+/-- the container's sort, `items.sort_unstable()`: the comparison keys (chaos, coherence, multi-byte
+    usage) are computed once per element, then `sort_unstable` runs on (key, element) pairs with
+    `is_less` = `Ord::cmp == Less` on the keys — the same comparisons the Rust code makes. -/
+def sortMatches {E L : Type} (l : List (Match E L)) : List (Match E L) :=
+  (sortUnstable (fun (a b : Match.Key × Match E L) => Match.ltKey a.1 b.1) (l.map (fun m => (m.key, m)))).map (·.2)
 
 end Charset
